@@ -10,6 +10,9 @@ pub const RO: u64 = 0x5001_0000;
 pub const NONE: u64 = 0x5002_0000;
 pub const UNMAPPED: u64 = 0x5003_0000;
 pub const STACK: u64 = 0x6000_0000;
+/// a data page above 4 GiB: reachable from 32-bit addressing only through a segment base, so
+/// `truncate, then add the base` and `add the base, then truncate` give different addresses
+pub const HI: u64 = 0x1_5000_0000;
 
 pub const STATUS_FLAGS: u64 = 0x8d5; // CF PF AF ZF SF OF
 pub const DF: u64 = 0x400;
@@ -22,13 +25,15 @@ pub enum Region {
     Ro = 2,
     None = 3,
     Stack = 4,
+    Hi = 5,
 }
-pub const REGIONS: [(Region, u64, i32); 5] = [
+pub const REGIONS: [(Region, u64, i32); 6] = [
     (Region::Code, CODE, libc::PROT_READ | libc::PROT_EXEC),
     (Region::Rw, RW, libc::PROT_READ | libc::PROT_WRITE),
     (Region::Ro, RO, libc::PROT_READ),
     (Region::None, NONE, libc::PROT_NONE),
     (Region::Stack, STACK, libc::PROT_READ | libc::PROT_WRITE),
+    (Region::Hi, HI, libc::PROT_READ | libc::PROT_WRITE),
 ];
 
 #[inline]
@@ -75,10 +80,10 @@ pub struct NativeOut {
 pub struct Stub {
     pub pid: i32,
     /// tracer-side RW views of the shared pages, indexed by Region
-    views: [*mut u8; 5],
+    views: [*mut u8; 6],
     regs0: libc::user_regs_struct,
     fp0: libc::user_fpregs_struct,
-    pub pristine: [Vec<u8>; 5],
+    pub pristine: [Vec<u8>; 6],
     pub steps: u64,
 }
 
@@ -102,8 +107,8 @@ impl Stub {
             libc::CPU_SET(cpu % crate::common::ncpu(), &mut set);
             libc::sched_setaffinity(0, std::mem::size_of::<libc::cpu_set_t>(), &set);
         }
-        let mut fds = [0i32; 5];
-        let mut views = [std::ptr::null_mut::<u8>(); 5];
+        let mut fds = [0i32; 6];
+        let mut views = [std::ptr::null_mut::<u8>(); 6];
         for (i, (_r, _a, _p)) in REGIONS.iter().enumerate() {
             fds[i] = memfd(&format!("axmc{i}"));
             let p = unsafe {
@@ -181,6 +186,7 @@ impl Stub {
             pristine_page(RO),
             pristine_page(NONE),
             pristine_page(STACK),
+            pristine_page(HI),
         ];
         let mut s = Stub {
             pid,
@@ -190,7 +196,7 @@ impl Stub {
             pristine,
             steps: 0,
         };
-        for i in 0..5 {
+        for i in 0..6 {
             s.restore(i);
         }
         s.check_maps();
@@ -268,6 +274,7 @@ impl Stub {
     pub fn restore_data(&mut self) {
         self.restore(Region::Rw as usize);
         self.restore(Region::Stack as usize);
+        self.restore(Region::Hi as usize);
     }
 
     /// Writes `bytes` at `CODE + off` over int3 filler.
